@@ -383,7 +383,8 @@ func (x *Exec) mergeStates(ins []*State) *State {
 		return x.vc.Define("m", sort, r)
 	}
 	// cells present in all
-	for id, v0 := range live[0].cells {
+	for _, id := range sortedCellIDs(live[0].cells) {
+		v0 := live[0].cells[id]
 		ok := true
 		for _, s := range live[1:] {
 			if _, has := s.cells[id]; !has {
@@ -410,7 +411,7 @@ func (x *Exec) mergeStates(ins []*State) *State {
 			names[n] = true
 		}
 	}
-	for n := range names {
+	for _, n := range sortedKeys(names) {
 		ts := make([]string, len(live))
 		for i, s := range live {
 			ts[i] = x.heapGet(s, n, x.heapSorts[n])
@@ -572,7 +573,10 @@ type linv struct {
 
 func (x *Exec) loopModset(fr *Frame, l *loopRec) *ModSet {
 	ms := NewModSet()
-	for b := range l.blocks {
+	for _, b := range fr.fn.Blocks {
+		if !l.blocks[b] {
+			continue
+		}
 		for _, in := range b.Instrs {
 			x.instrMods(fr, in, ms, 0)
 		}
@@ -1654,24 +1658,41 @@ func (x *Exec) execNext(fr *Frame, st *State, i *ssa.Next) {
 		return
 	}
 	kt, vt := tt.At(1).Type(), tt.At(2).Type()
-	kval, f1 := x.freshVal("next.k", kt)
-	vval, f2 := x.freshVal("next.v", vt)
-	x.assumeIn(st, and(f1, f2, x.refFacts(st, kval), x.refFacts(st, vval)))
-	out.S = append(out.S, kval.S...)
-	out.L = append(out.L, kval.L...)
-	out.S = append(out.S, vval.S...)
-	out.L = append(out.L, vval.L...)
+	var mt *types.Map
 	if rng != nil {
+		mt, _ = rng.X.Type().Underlying().(*types.Map)
+	}
+	// unused key/value slots have an invalid type in the tuple: reason with the map's own types,
+	// but keep the tuple layout
+	rkt, rvt := kt, vt
+	if mt != nil {
+		rkt, rvt = mt.Key(), mt.Elem()
+	}
+	kval, f1 := x.freshVal("next.k", rkt)
+	vval, f2 := x.freshVal("next.v", rvt)
+	x.assumeIn(st, and(f1, f2, x.refFacts(st, kval), x.refFacts(st, vval)))
+	appendSlot := func(slotT types.Type, v Val) {
+		ls := x.layout(slotT)
+		if len(ls) == len(v.L) {
+			out.S = append(out.S, v.S...)
+			out.L = append(out.L, v.L...)
+			return
+		}
+		for _, s := range ls {
+			out.S = append(out.S, s)
+			out.L = append(out.L, x.zeroLeaf(s))
+		}
+	}
+	appendSlot(kt, kval)
+	appendSlot(vt, vval)
+	if mt != nil {
 		mv := x.val(fr, rng.X)
-		mt := rng.X.Type().Underlying().(*types.Map)
 		if dom, ds, vals, vs, ok := x.mapArrs(mt); ok && len(kval.L) == 1 {
 			var facts []string
 			facts = append(facts, not(eq(mv.One(), "0")), "(select (select "+x.heapGet(st, dom, ds)+" "+mv.One()+") "+kval.One()+")")
-			if len(vval.L) > 0 {
-				for k := range vals {
-					if k < len(vval.L) {
-						facts = append(facts, eq(vval.L[k], "(select (select "+x.heapGet(st, vals[k], vs[k])+" "+mv.One()+") "+kval.One()+")"))
-					}
+			for k := range vals {
+				if k < len(vval.L) {
+					facts = append(facts, eq(vval.L[k], "(select (select "+x.heapGet(st, vals[k], vs[k])+" "+mv.One()+") "+kval.One()+")"))
 				}
 			}
 			x.assumeIn(st, implies(okv, and(facts...)))
@@ -1725,6 +1746,15 @@ func (x *Exec) execPanic(fr *Frame, st *State, i *ssa.Panic) {
 		x.obligeIn(st, "panic", "unreachable "+x.srcText(i), "false", "")
 	}
 	st.dead = true
+}
+
+func sortedCellIDs(m map[int]Val) []int {
+	out := make([]int, 0, len(m))
+	for k := range m {
+		out = append(out, k)
+	}
+	sort.Ints(out)
+	return out
 }
 
 // sorted helper
